@@ -35,7 +35,7 @@ class Gen:
     def __init__(self, rng):
         self.rng = rng
 
-    def history(self, n, chips=1, chans=(0, 1, 9), keys=(60, 61, 62, 36), arp=False, wide=False, rate=65536, alloc=None, time=True):
+    def history(self, n, chips=1, chans=(0, 1, 9), keys=(60, 61, 62, 36, 127), arp=False, wide=False, rate=65536, alloc=None, time=True):
         rng = self.rng
         img, ids, pids = test_bank(rng, same_timbre=arp and rng.random() < 0.7)
         ops = ["new %d %d" % (rate, chips), "bank " + img.hex()]
